@@ -122,3 +122,43 @@ let () =
                | Some (CPlural (v, cases)) -> "L" :: hex_of_bstr v :: ("#" ^ string_of_int (List.length cases)) :: List.concat_map po_parts_s cases) ids
          | o -> [cls o])
     | _ -> failwith "c11_po_load: arity")
+
+(* the header entry of a catalogue and its plural rule (Model/PoHeader.v) *)
+let poh_values (code : n) (ns : string list) : string list =
+  List.map (fun x -> z_s (poh_select code (big_field x))) ns
+
+let poh_sorted_pairs (h : (n list * n list) list) : string list =
+  let ps = List.map (fun (k, v) -> (hex_of_bstr k, hex_of_bstr v)) h in
+  let ps = List.stable_sort (fun (k1, _) (k2, _) -> compare k1 k2) ps in
+  ("#" ^ string_of_int (List.length ps)) :: List.concat_map (fun (k, v) -> [k; v]) ps
+
+let () =
+  (* c11_po_hparse <hex bytes> #k <#n>*k -> class; when ok: #p (<hex key> <hex value>)*p sorted by key (stable),
+     #messages, then "nil" or the selector's values at the k numbers *)
+  register "c11_po_hparse" (fun a -> match a with
+    | s :: _ :: ns ->
+        (match poh_parse (bstr_of_hex s) with
+         | Ok f ->
+             "ok" :: poh_sorted_pairs f.pohf_header
+             @ [("#" ^ string_of_int (List.length f.pohf_messages))]
+             @ (match f.pohf_pluralize with None -> ["nil"] | Some c -> poh_values c ns)
+         | o -> [cls o])
+    | _ -> failwith "c11_po_hparse: arity");
+  (* c11_po_hload <hex locale> <hex bytes> #k <#n>*k -> class; when ok: the values of Bundle.PluralCase at the k numbers *)
+  register "c11_po_hload" (fun a -> match a with
+    | loc :: s :: _ :: ns ->
+        (match poh_load (bstr_of_hex loc) (bstr_of_hex s) with
+         | Ok (_, c) -> "ok" :: poh_values c ns
+         | o -> [cls o])
+    | _ -> failwith "c11_po_hload: arity");
+  (* c11_po_hmime <hex text> -> class; when ok: the pairs as c11_po_hparse prints them *)
+  register "c11_po_hmime" (fun a -> match a with
+    | [s] -> (match poh_read_mime_header (bstr_of_hex s) with Ok h -> "ok" :: poh_sorted_pairs h | o -> [cls o])
+    | _ -> failwith "c11_po_hmime: arity");
+  (* c11_po_hwrite #k (<hex key> <hex value>)*k #p <#rune>*p -> <hex bytes of File.WriteTo with that header, no message> *)
+  register "c11_po_hwrite" (fun a -> match a with
+    | k :: rest ->
+        let (h, rest) = take_n (int_field k) (function key :: v :: r -> ((bstr_of_hex key, bstr_of_hex v), r) | _ -> failwith "c11_po_hwrite: pair missing") rest in
+        let (pr, _) = parse_printable rest in
+        [hex_of_bstr (poh_write_file pr h [])]
+    | _ -> failwith "c11_po_hwrite: arity")
